@@ -28,6 +28,10 @@ LAYERS = {
     'svc.test.eu.json': {'region': 'eu', 'port': 8082},
     'db.json': {'host': 'db', 'n': [1, 2, 3]},
     'plain.yml': {'x': 1},
+    'values[prod].yaml': {'env': 'prod', 'n': 1},
+    'values[prod].eu.yaml': {'region': 'eu'},
+    'star*name.json': {'s': 1},
+    'q?.toml': {'q': 1},
 }
 BAD = {
     'bad-required.yaml': {'a': '$required'},
@@ -39,7 +43,8 @@ OTHERS = ['-x', '--opt=value', '--opt=svc.yaml', '--file', 'word', 'two words', 
 GOOD_ARGS = ['svc.yaml', 'svc.test.toml', 'svc.test.eu.json', 'db.json', 'plain.yml', 'svc.json', 'svc.toml', 'svc.test.json', 'svc.test.yaml', 'svc.test.yml', 'svc.test.jsonl', 'svc.test.json-pretty',
              'db.yaml', 'db.toml', 'plain.json', './svc.yaml', 'sub/../svc.test.toml', 'svc.test.eu.yaml', 'svc.test.eu.toml',
              'sub/svc.yaml', 'dir/svc.yaml', 'sub/svc.json', 'dir/db.json', 'sub/db.json', 'dir/svc.toml',
-             'prod.yaml', 'prod.json', 'lnk.toml', 'lnk.yaml', 'sub/dblink.json', 'sub/dblink.yaml']
+             'prod.yaml', 'prod.json', 'lnk.toml', 'lnk.yaml', 'sub/dblink.json', 'sub/dblink.yaml',
+             'values[prod].yaml', 'values[prod].eu.yaml', 'values[prod].eu.json', 'values[prod].json', 'star*name.json', 'star*name.yaml', 'q?.toml', 'q?.json']
 BAD_ARGS = ['bad-required.yaml', 'bad-required.json', 'orphan.child.yaml', 'bad-parent.yaml', 'bad-parent.toml', 'syntax.json', 'syntax.yaml']
 
 
